@@ -276,6 +276,20 @@ func c18(c *Ctx) {
 			i++
 		}
 	}
+	// lalr(2) grammars with several reduce/reduce conflict groups in ONE state, each resolved at depth 2
+	// (one lookahead trie per group is appended to the tables, in the order of the state's conflict list)
+	for i, tries := 0, 0; i < c.N(4, 12) && tries < 4*c.N(4, 12); tries++ {
+		if addText("la2-groups", fmt.Sprintf("groups%d", i), c18GroupsGrammar(c.Rng, fmt.Sprintf("q%d", i))) {
+			i++
+		}
+	}
+	// mid-rule actions preceded by >= 2 symbols and followed by optionals / choices, several per rule: the
+	// expansions of one rule share (or not) the extracted mid-rule nonterminal via the ActionVars digest
+	for i, tries := 0, 0; i < c.N(5, 16) && tries < 4*c.N(5, 16); tries++ {
+		if addText("midrule", fmt.Sprintf("midrule%d", i), c18MidruleGrammar(c.Rng, fmt.Sprintf("m%d", i))) {
+			i++
+		}
+	}
 	// variants: the same grammar with another nodePrefix (same node names, different rendered ids)
 	nv := 0
 	for gi := range pool {
@@ -309,13 +323,30 @@ func c18(c *Ctx) {
 	}
 	type childJob struct {
 		g     int
-		after int // >= 0: history job, grammar `after` is generated first in the same process
+		after int    // >= 0: history job, grammar `after` is generated first in the same process
+		dir   string // != "": working-directory job, the grammar is `g.tm` in this directory, given as a relative path
 		procs int
 		out   c18Run
 	}
 	var jobs []*childJob
 	for _, pr := range pairs {
 		jobs = append(jobs, &childJob{g: pr[1], after: pr[0], procs: 1})
+	}
+	// working directory: the same relative path `g.tm` (same content) generated from two different directories
+	for gi, g := range pool {
+		if g.Heavy {
+			continue
+		}
+		content, err := os.ReadFile(g.Path)
+		if err != nil {
+			continue
+		}
+		for _, d := range []string{"wd-a", "wd-another-longer-name/nested"} {
+			dir := filepath.Join(tmp, d, fmt.Sprint(gi))
+			must(os.MkdirAll(dir, 0o755))
+			must(os.WriteFile(filepath.Join(dir, "g.tm"), content, 0o644))
+			jobs = append(jobs, &childJob{g: gi, after: -1, dir: dir, procs: 1})
+		}
 	}
 	for gi, g := range pool {
 		n := c.N(2, 4)
@@ -350,6 +381,10 @@ func c18(c *Ctx) {
 					args = append(args, pool[j.after].Path)
 				}
 				cmd := exec.Command(self, append(args, pool[j.g].Path)...)
+				if j.dir != "" {
+					cmd = exec.Command(self, "C18-child", "g.tm")
+					cmd.Dir = j.dir
+				}
 				cmd.Env = append(os.Environ(), fmt.Sprintf("GOMAXPROCS=%d", j.procs))
 				var out bytes.Buffer
 				cmd.Stdout = &out
@@ -412,7 +447,7 @@ func c18(c *Ctx) {
 		if g.Kind == "witness" {
 			extra = 40
 		}
-		if g.Kind == "cc-casts" {
+		if g.Kind == "cc-casts" || g.Kind == "la2-groups" || g.Kind == "midrule" {
 			extra = 6
 		}
 		for k := 0; k < extra; k++ {
@@ -422,7 +457,12 @@ func c18(c *Ctx) {
 	}
 	<-done
 	fresh := map[int]c18Run{} // first fresh-process run of each grammar
+	wd := map[int][]c18Run{}
 	for _, j := range jobs {
+		if j.dir != "" {
+			wd[j.g] = append(wd[j.g], j.out)
+			continue
+		}
 		if j.after >= 0 {
 			continue
 		}
@@ -469,8 +509,32 @@ func c18(c *Ctx) {
 		}
 	}
 	// ---- history dependence: B after A in one process vs B alone in a fresh process
+	// ---- working-directory dependence
+	for gi, g := range pool {
+		runs := wd[gi]
+		if len(runs) != 2 {
+			continue
+		}
+		if nondet[gi] {
+			continue // already reported
+		}
+		c.Count("cwd-pairs-" + c18Lang(g.Path))
+		key := ""
+		if len(runs[0].Files) > 0 {
+			key = "cwd:" + g.Name
+		}
+		c.Case(fmt.Sprintf("cwd %s %s %s", c18NameRE.ReplaceAllString(g.Name, "_"), runs[0].Digest, runs[1].Digest), "same", key)
+		if runs[0].Digest != runs[1].Digest {
+			input := g.Name + " (file of the repository)"
+			if g.Text != "" {
+				input = g.Name + "\n" + g.Text
+			}
+			c.Violate(fmt.Sprintf("working-directory dependence: grammar %s given as the relative path g.tm and generated in two different directories (same content, same command line): %s",
+				g.Name, c18Describe(runs[0], runs[1])), input)
+		}
+	}
 	for _, j := range jobs {
-		if j.after < 0 {
+		if j.after < 0 || j.dir != "" {
 			continue
 		}
 		a, b := pool[j.after], pool[j.g]
@@ -577,6 +641,114 @@ func c18CastGrammar(r *rand.Rand, name string) string {
 	}
 	r.Shuffle(len(stmtAlts), func(a, b int) { stmtAlts[a], stmtAlts[b] = stmtAlts[b], stmtAlts[a] })
 	fmt.Fprintf(&sb, "stmt {Node} :\n    %s\n;\n", strings.Join(stmtAlts, "\n  | "))
+	return sb.String()
+}
+
+// c18GroupsGrammar: `input: G0a 'g0' 'u0' | G0b 'g0' 'u1' | G1a 'g1' 'u0' | G1b 'g1' 'u1' ; Gxy: 'e' ;` — after
+// 'e' one state reduces every Gxy; lookahead 'g0' leaves the rules of group 0 in conflict, 'g1' those of group 1:
+// 2–4 distinct reduce/reduce groups in one state, each resolved by the second token.
+func c18GroupsGrammar(r *rand.Rand, name string) string {
+	groups := 2 + r.Intn(3)
+	var sb strings.Builder
+	fmt.Fprintf(&sb, "language %s(go);\n\npackage = \"example.com/%s\"\n", name, name)
+	if r.Intn(2) == 0 {
+		sb.WriteString("eventBased = true\n")
+	}
+	sb.WriteString("\n:: lexer\n\n'e': /e/\n'p': /p/\n")
+	for g := 0; g < groups; g++ {
+		fmt.Fprintf(&sb, "'g%d': /g%d/\n", g, g)
+	}
+	for u := 0; u < 3; u++ {
+		fmt.Fprintf(&sb, "'u%d': /u%d/\n", u, u)
+	}
+	sb.WriteString("\n:: parser lalr(2)\n\n")
+	var alts, nts []string
+	prefix := ""
+	if r.Intn(2) == 0 {
+		prefix = "'p' "
+	}
+	for g := 0; g < groups; g++ {
+		m := 2 + r.Intn(2)
+		for k := 0; k < m; k++ {
+			nt := fmt.Sprintf("G%dR%d", g, k)
+			alts = append(alts, fmt.Sprintf("%s%s 'g%d' 'u%d'", prefix, nt, g, k))
+			nts = append(nts, nt+": 'e' ;")
+		}
+	}
+	r.Shuffle(len(alts), func(a, b int) { alts[a], alts[b] = alts[b], alts[a] })
+	r.Shuffle(len(nts), func(a, b int) { nts[a], nts[b] = nts[b], nts[a] })
+	fmt.Fprintf(&sb, "input:\n    %s\n;\n\n%s\n", strings.Join(alts, "\n  | "), strings.Join(nts, "\n"))
+	return sb.String()
+}
+
+// c18MidruleGrammar: rules `kw t t [t] { mid } t? t { mid } (t | t) ';'`: every mid-rule action is preceded by
+// at least two symbols and followed by an optional or a choice, so it ends up in several expanded rules.
+func c18MidruleGrammar(r *rand.Rand, name string) string {
+	lang := "go"
+	if r.Intn(3) == 0 {
+		lang = "cc"
+	}
+	var sb strings.Builder
+	fmt.Fprintf(&sb, "language %s(%s);\n\n", name, lang)
+	if lang == "go" {
+		fmt.Fprintf(&sb, "package = \"example.com/%s\"\n", name)
+		if r.Intn(2) == 0 {
+			sb.WriteString("eventBased = true\n")
+		}
+	} else {
+		fmt.Fprintf(&sb, "namespace = %q\nincludeGuardPrefix = \"%s_\"\nfilenamePrefix = \"%s_\"\n", name, strings.ToUpper(name), name)
+	}
+	sb.WriteString("\n:: lexer\n\n")
+	toks := []string{"a", "b", "c", "d", "e", "f"}
+	for _, t := range toks {
+		fmt.Fprintf(&sb, "'%s': /%s/\n", t, t)
+	}
+	nalt := 1 + r.Intn(3)
+	for k := 0; k < nalt; k++ {
+		fmt.Fprintf(&sb, "'k%d': /k%d/\n", k, k)
+	}
+	sb.WriteString("';': /;/\nspace: /[ \\t\\r\\n]+/ (space)\n\n:: parser\n\n%input input;\n\n")
+	t := func() string { return "'" + toks[r.Intn(len(toks))] + "'" }
+	act := func(i int) string {
+		if lang == "cc" {
+			return fmt.Sprintf("{ mid(%d); }", i)
+		}
+		return fmt.Sprintf("{ println(\"mid %d\") }", i)
+	}
+	var alts []string
+	for k := 0; k < nalt; k++ {
+		var parts []string
+		if nalt > 1 || r.Intn(2) == 0 {
+			parts = append(parts, fmt.Sprintf("'k%d'", k))
+		}
+		nmid := 1 + r.Intn(2)
+		for m := 0; m < nmid; m++ {
+			for n := 0; n < 2+r.Intn(2); n++ {
+				parts = append(parts, t())
+			}
+			parts = append(parts, act(m))
+			x, y := t(), t()
+			for y == x {
+				y = t()
+			}
+			if r.Intn(2) == 0 {
+				parts = append(parts, x+"?", y)
+			} else {
+				z := t()
+				for z == x || z == y {
+					z = t()
+				}
+				parts = append(parts, "("+x+" | "+y+")", z)
+			}
+		}
+		parts = append(parts, "';'")
+		alts = append(alts, strings.Join(parts, " "))
+	}
+	if r.Intn(2) == 0 {
+		fmt.Fprintf(&sb, "input:\n    item+ ;\n\nitem:\n    %s\n;\n", strings.Join(alts, "\n  | "))
+	} else {
+		fmt.Fprintf(&sb, "input:\n    %s\n;\n", strings.Join(alts, "\n  | "))
+	}
 	return sb.String()
 }
 
